@@ -171,6 +171,15 @@ pub fn parse_event_stream(bytes: &[u8]) -> Result<Vec<Event>, String> {
     Ok(out)
 }
 
+/// the first n bytes of s, cut back to a character boundary
+fn cut(s: &str, n: usize) -> &str {
+    let mut n = n.min(s.len());
+    while !s.is_char_boundary(n) {
+        n -= 1;
+    }
+    &s[..n]
+}
+
 /* ------------------------------ generation ------------------------------ */
 
 fn gen_message(rng: &mut Rng, small: bool) -> (String, char) {
@@ -290,7 +299,7 @@ fn check(rep: &mut Report, case: u64, router: &hook::Router, msgs: &[String], ac
     let slot: Slot = Arc::new(Mutex::new(vec![]));
     SCRIPT.with(|s| *s.borrow_mut() = (acts.clone(), kind, Some(slot.clone())));
     let pname = ["DataStream::new", "From<Stream>", "stream::queue"][kind];
-    let cj = |extra: serde_json::Value| json!({"case_index": case, "producer": pname, "messages": msgs.iter().map(|m| if m.len() > 80 { format!("{}..({} bytes)", &m[..40], m.len()) } else { m.clone() }).collect::<Vec<_>>(), "schedule": shape, "detail": extra});
+    let cj = |extra: serde_json::Value| json!({"case_index": case, "producer": pname, "messages": msgs.iter().map(|m| if m.len() > 80 { format!("{}..({} bytes)", cut(m, 40), m.len()) } else { m.clone() }).collect::<Vec<_>>(), "schedule": shape, "detail": extra});
     // request through the real reader and router, response through the real send; external wakes are fired on idle turns
     let result = catch(|| {
         let mut sink = Sink::new();
@@ -362,7 +371,7 @@ fn check(rep: &mut Report, case: u64, router: &hook::Router, msgs: &[String], ac
                 let has_cr = msgs.iter().any(|m| m.contains('\r'));
                 let kind = if evs.len() != expected.len() { if has_cr { "events-lost-or-split:cr" } else { "events-lost-or-split" } } else if evs.iter().any(|e| !e.typ.is_empty() || e.id.is_some()) { "field-injection" } else if has_cr { "data-differs:cr" } else { "data-differs" };
                 let first = evs.iter().zip(&expected).position(|(a, b)| a != b).unwrap_or(evs.len().min(expected.len()));
-                problems.push((kind, format!("decoded {} events, sent {}; first difference at {first}: got {:?}, sent {:?}", evs.len(), expected.len(), evs.get(first), expected.get(first).map(|e| if e.data.len() > 60 { format!("{}..", &e.data[..60]) } else { e.data.clone() }))));
+                problems.push((kind, format!("decoded {} events, sent {}; first difference at {first}: got {:?}, sent {:?}", evs.len(), expected.len(), evs.get(first), expected.get(first).map(|e| if e.data.len() > 60 { format!("{}..", cut(&e.data, 60)) } else { e.data.clone() }))));
             }
         }
     }
@@ -370,7 +379,7 @@ fn check(rep: &mut Report, case: u64, router: &hook::Router, msgs: &[String], ac
         rep.count("streams_decoded_exactly");
         rep.count_n("messages_delivered", msgs.len() as u64);
         if rep.want_sample() && msgs.len() >= 2 && shape.contains('p') {
-            rep.sample(json!({"producer": pname, "schedule": shape, "messages": msgs.iter().map(|m| if m.len() > 40 { format!("{}..", &m[..40]) } else { m.clone() }).collect::<Vec<_>>(), "chunks_written": writes.len()}));
+            rep.sample(json!({"producer": pname, "schedule": shape, "messages": msgs.iter().map(|m| if m.len() > 40 { format!("{}..", cut(m, 40)) } else { m.clone() }).collect::<Vec<_>>(), "chunks_written": writes.len()}));
         }
     }
     for (k, what) in problems {
